@@ -151,7 +151,9 @@ func runC12(rc *RunCtx) {
 				sortStrings(addrs)
 				to, _ := sdk.AccAddressFromBech32(addrs[rc.Intn(len(addrs))])
 				amt := []int64{1, 1000, 1_000_000, 5_000_000_000, 1_000_000_000_000}[rc.Intn(5)]
-				tx(4, bankSend(c.Accs[4].Addr, to, sdk.NewCoins(sdk.NewInt64Coin("ujkl", amt))))
+				pre := c.Snapshot()
+				c.DeliverAs(4, bankSend(c.Accs[4].Addr, to, sdk.NewCoins(sdk.NewInt64Coin("ujkl", amt))))
+				gt.AfterTopUp(rc, s, pre, c.Snapshot())
 				rc.Count("escrow_top_ups", 1)
 			}
 		}
